@@ -10,6 +10,7 @@ use std::sync::{Arc, Mutex};
 use vm_memory::{GuestAddress, GuestAddressSpace, GuestMemory, GuestMemoryAtomic, GuestMemoryMmap, GuestMemoryRegion, GuestRegionMmap};
 
 type Mem = GuestMemoryMmap<()>;
+pub const REMOVE: u64 = 1 << 63;
 type Atomic = GuestMemoryAtomic<Mem>;
 
 fn region(start: u64, tag: u8) -> Arc<GuestRegionMmap<()>> {
@@ -46,7 +47,8 @@ enum Log {
 #[derive(Clone, Debug)]
 pub struct Config {
     pub name: &'static str,
-    /// regions inserted by each updater thread, one per round
+    /// per updater thread, one entry per round: insert a region at this start address, or
+    /// (REMOVE | start) remove the region starting there
     pub updaters: Vec<Vec<u64>>,
     pub readers: usize,
     pub bound: Option<u32>,
@@ -99,13 +101,19 @@ fn execute(cfg: &Config, ex: &mut Explorer) -> ExecResult {
     let log: Arc<Mutex<Vec<Log>>> = Arc::new(Mutex::new(Vec::new()));
     let mut bodies: Vec<ThreadBody> = Vec::new();
     let mut tid = 0usize;
+    let mut removed: BTreeSet<u64> = BTreeSet::new();
     for ups in &cfg.updaters {
-        let mut regs = Vec::new();
+        let mut regs: Vec<Result<Arc<GuestRegionMmap<()>>, u64>> = Vec::new();
         for s in ups {
+            if s & REMOVE != 0 {
+                removed.insert(s & !REMOVE);
+                regs.push(Err(s & !REMOVE));
+                continue;
+            }
             let tag = 10 + all_regions.len() as u8;
             let r = region(*s, tag);
             all_regions.push((*s, r.as_ptr() as usize, tag));
-            regs.push(r);
+            regs.push(Ok(r));
         }
         let a = atomic.clone();
         let lg = log.clone();
@@ -115,7 +123,10 @@ fn execute(cfg: &Config, ex: &mut Explorer) -> ExecResult {
                 let guard = a.lock().unwrap();
                 let cur = a.memory();
                 step("derive-new-map");
-                let new = cur.insert_region(r).unwrap();
+                let new = match r {
+                    Ok(r) => cur.insert_region(r).unwrap(),
+                    Err(start) => cur.remove_region(GuestAddress(start), 4096).unwrap().0,
+                };
                 let regions = starts(&new);
                 drop(cur);
                 guard.replace(new);
@@ -188,11 +199,16 @@ fn execute(cfg: &Config, ex: &mut Explorer) -> ExecResult {
                         fail("snapshot-region-unreadable", format!("region {:#x} reads tag {} instead of {:?}", s, t, tags.get(s)));
                     }
                 }
-                // once a replacement has completed, later snapshots show it (or a later one)
-                let have: BTreeSet<u64> = list.iter().cloned().collect();
-                if !completed.is_subset(&have) {
-                    fail("stale-snapshot-after-completed-replace", format!("snapshot {:x?} taken after the replacements publishing {:x?} had completed", list, completed));
+                // once a replacement has completed, later snapshots show it (or a later one):
+                // the snapshot must not be a map that was published *before* the last completed one
+                let last_completed = published.len() - 1;
+                if let Some(pos) = published.iter().position(|p| *p == list) {
+                    let later_same = published.iter().rposition(|p| *p == list).unwrap_or(pos);
+                    if later_same < last_completed {
+                        fail("stale-snapshot-after-completed-replace", format!("snapshot {:x?} is generation {} but generation {} ({:x?}) had already been published completely", list, later_same, last_completed, published[last_completed]));
+                    }
                 }
+                let _ = &completed;
             }
             Log::Reread { by, first, again } => match again {
                 Ok(a) => {
@@ -217,7 +233,7 @@ fn execute(cfg: &Config, ex: &mut Explorer) -> ExecResult {
     let final_map = atomic.memory();
     let final_list = starts(&final_map);
     outcome.push(format!("final={:x?}", final_list));
-    let want: BTreeSet<u64> = all_regions.iter().map(|r| r.0).collect();
+    let want: BTreeSet<u64> = all_regions.iter().map(|r| r.0).filter(|s| !removed.contains(s)).collect();
     if final_list.iter().cloned().collect::<BTreeSet<u64>>() != want {
         fail("lost-replacement", format!("final map {:x?} but the updaters inserted {:x?}", final_list, want));
     }
@@ -539,6 +555,9 @@ pub fn run(tier: Tier, replay: Option<String>) -> i32 {
         Config { name: "2-updaters", updaters: vec![vec![0x20_0000], vec![0x30_0000]], readers: 0, bound: None },
         Config { name: "2-updaters-1-reader", updaters: vec![vec![0x20_0000], vec![0x30_0000]], readers: 1, bound: Some(if thorough { 3 } else { 2 }) },
         Config { name: "1-updater-2-rounds-2-readers", updaters: vec![vec![0x20_0000, 0x30_0000]], readers: 2, bound: Some(if thorough { 3 } else { 2 }) },
+        // the first region is removed while readers hold snapshots that still contain it
+        Config { name: "insert-then-remove-vs-reader", updaters: vec![vec![0x20_0000, REMOVE | 0x10_0000]], readers: 1, bound: Some(if thorough { 4 } else { 3 }) },
+        Config { name: "inserter-and-remover-vs-reader", updaters: vec![vec![0x20_0000], vec![0x30_0000, REMOVE | 0x10_0000]], readers: 1, bound: Some(2) },
     ];
     for cfg in &configs {
         run_config(&ctx, cfg);
